@@ -8,7 +8,7 @@
 (*        must be the proper format for the value and decode to it, and    *)
 (*        type1.Read must return it;                                       *)
 (*   [ev |-> "frac", s, m, e, p, q]  a fractional delta s*m*2^e (m limbs)  *)
-(*        written as "p q div": q in 1..107 and |p/q - x| <= 1/214.        *)
+(*        written as "p q div": q >= 1 and |p/q - x| <= 1/214.           *)
 (***************************************************************************)
 EXTENDS T1Charstring, BigInt, Json
 CONSTANT TraceFile
@@ -28,7 +28,7 @@ FracOK(e) == LET k == 0 - e.e
                  n == [s |-> e.s, m |-> e.m]
                  lhs == Mul(Shl(BI(214), 40), Abs(Sub(Shl(BI(e.p), k), Mul(BI(e.q), n))))
                  rhs == Mul(Shl(BI(e.q), k), Add(TwoPow(40), BI(214)))
-             IN e.q >= 1 /\ e.q <= 107 /\ e.e <= 0 /\ Le(lhs, rhs)
+             IN e.q >= 1 /\ e.e <= 0 /\ Le(lhs, rhs)     \* any denominator: the property bounds the error, not q
 Holds(e) == IF e.ev = "num" THEN NumOK(e) ELSE FracOK(e)
 Examine(e) == IF Holds(e) THEN TRUE ELSE PrintT(<<"REJECTED-EVENT", l>>)
 Next == l <= Len(Trace) /\ Examine(Trace[l]) /\ l' = l + 1
